@@ -181,6 +181,12 @@ func c10Build(cs c10Case) (*c10Stream, error) {
 		for i := 0; i < len(cs.Tracks)-2; i++ {
 			layout = append(layout, []trk{{ak, audioRates[i]}})
 		}
+	case "va+a", "va+aa":
+		// audio multiplexed with the video, plus renditions of their own
+		layout = [][]trk{{{vk, vscale}, {ak, audioRates[1]}}}
+		for i := 0; i < len(cs.Tracks)-3; i++ {
+			layout = append(layout, []trk{{ak, audioRates[(i+2)%3]}})
+		}
 	}
 	seq := 0
 	for ri, lr := range layout {
@@ -394,9 +400,19 @@ func (st *c10Stream) server() *stubServer {
 		if name == "index.m3u8" {
 			var b strings.Builder
 			b.WriteString("#EXTM3U\n#EXT-X-VERSION:7\n")
+			muxed := false
+			for _, t := range st.rends[0].tracks {
+				if !c10IsVideo(t.Kind) && len(st.rends[0].tracks) > 1 {
+					muxed = true
+				}
+			}
+			if muxed && len(st.rends) > 1 {
+				// the audio that is multiplexed into the variant's own playlist is a rendition of the group too: it has no URI
+				b.WriteString("#EXT-X-MEDIA:TYPE=AUDIO,GROUP-ID=\"aud\",NAME=\"muxed\",LANGUAGE=\"l0\",DEFAULT=YES,AUTOSELECT=YES\n")
+			}
 			for ri := 1; ri < len(st.rends); ri++ {
 				def := "NO"
-				if ri == 1 {
+				if ri == 1 && !muxed {
 					def = "YES"
 				}
 				fmt.Fprintf(&b, "#EXT-X-MEDIA:TYPE=AUDIO,GROUP-ID=\"aud\",NAME=\"lang%d\",LANGUAGE=\"l%d\",DEFAULT=%s,AUTOSELECT=YES,URI=\"r%d.m3u8\"\n", ri, ri, def, ri)
@@ -491,7 +507,7 @@ func (st *c10Stream) expect() []c10Exp {
 			}
 			e := c10Exp{kind: t.Kind, rate: int(rate)}
 			if ri > 0 {
-				e.name, e.lang, e.def = fmt.Sprintf("lang%d", ri), fmt.Sprintf("l%d", ri), ri == 1
+				e.name, e.lang, e.def = fmt.Sprintf("lang%d", ri), fmt.Sprintf("l%d", ri), ri == 1 && len(st.rends[0].tracks) == 1
 			}
 			off := origin/leadRate*rate + (origin%leadRate)*rate/leadRate // multiplyAndDivide
 			for j := firstSeg; j < cs.NSeg; j++ {
@@ -734,6 +750,14 @@ func c10Cases(tier string) map[string][]c10Case {
 			}
 			for _, pdt := range []bool{false, true} {
 				out[cont+" long-running"] = append(out[cont+" long-running"], c10Case{Container: cont, Base: base, Tracks: "v", Frags: 1, PDT: pdt, VOD: true, NSeg: 14, SegSec: 4000, Frames: 500})
+			}
+		}
+	}
+	// audio multiplexed into the variant's playlist (a rendition without URI, listed first) next to renditions of their own
+	for _, cont := range []string{"fmp4", "ts"} {
+		for _, tracks := range []string{"va+a", "va+aa"} {
+			for _, vod := range []bool{true, false} {
+				out[cont+" muxed-and-separate-audio"] = append(out[cont+" muxed-and-separate-audio"], c10Case{Container: cont, Base: 540000, Tracks: tracks, Frags: 1, PDT: true, VOD: vod, NSeg: 4})
 			}
 		}
 	}
